@@ -848,7 +848,8 @@ class Session:
                 rec = dict(c=fd, t=e["t"], wf={True: "yes", False: "no", None: "any"}[lab["wf"]] if lab else "yes")
                 a = e["a"]
                 if e["t"] == MSG["CONNECT_REQ"] and a:
-                    rec.update(compat=(a[5] == self.lay.l["compat_version"]), srv=service_names(a[0]))
+                    rec.update(compat=(a[5] == self.lay.l["compat_version"]), srv=service_names(a[0]),
+                               nsi=bool(a[4] & CLIENT_NO_STATUS_IND))
                 elif e["t"] == MSG["CHN_TOKEN_REQ"] and a:
                     rec.update(prio=enc(a[0]), valid=bool(a[1]))
                 elif e["t"] == MSG["CHN_NOTIFY_REQ"] and a:
@@ -856,6 +857,8 @@ class Session:
                 if st is not None:
                     wrote(fd, i)
                     st["pend"] = rec
+                    if rec.get("nsi"):
+                        st["nsi"] = True        # a refused CONNECT_REQ closes the connection: no need to take it back
             elif k == "msg":
                 st = cur.get(fd)
                 if st is None or st["pend"] is None:
@@ -904,6 +907,9 @@ class Session:
                 emit(dict(e=k, c=fd, st=dump(e)), i)
             elif k == "timer":
                 emit(dict(e="timer", st=dump(e)), i)
+            elif k == "chgind":
+                if fd in cur:       # CHN_CHANGE_IND queued: a status indication (never for a NO_STATUS_IND client)
+                    emit(dict(e="chg", c=fd, nsi=bool(cur[fd].get("nsi"))), i)
         flush_obs(len(evs))
         return out, src
 
@@ -919,6 +925,9 @@ class Session:
                     pass
                 c.s = None
         return self.d.stop()
+
+
+CLIENT_NO_STATUS_IND = 2        # VBI_PROXY_CLIENT_NO_STATUS_IND (src/proxy-msg.h), client_flags of the CONNECT_REQ
 
 
 def e_has_reply(t):
